@@ -32,6 +32,13 @@ def run_part(ctx: Ctx):
     failing = ctx.coq_check("deep", IMPORTS, "input * outcome", "deep_corr", cases)
     ctx.traces_validated += len(cases) - len(failing)
     ctx.count("deep_pointer_model_cases", len(cases))
+    if ctx.theorems.get("C07_deep_search_refines") == "proved" and not ctx.broken:
+        # the caveat recorded by C07.py is closed by Props/C07_deep.v: say what is proved and what is still trusted
+        ctx.notes[:] = [n for n in ctx.notes if not n.startswith("the functional model's claim that _cover/_uncover")]
+        ctx.notes.append("_cover/_uncover pointer surgery = 'remove the column and the rows sharing it' is PROVED for the "
+                         "pointer-level model (Props/C07_deep.v: cover_refines, uncover_inverse, build_refines, "
+                         "search_refines: psolve = solve for every input); what is still trusted is that DeepLinks.v "
+                         "transcribes dlx.py assignment by assignment, tested by the per-run correspondence 'deep'")
     ctx.notes.append("pointer-level model (DeepLinks.psolve: id-indexed left/right/up/down/column/size maps, loops with "
                      "fuel) compared with the implementation and with the functional model on the cases of at most "
                      f"{MAX_ROWS} rows x {MAX_COLS} columns ({len(cases)} of {len(coq_cases)} cases)")
